@@ -36,6 +36,9 @@ func reducedMode(o wopts) string {
 
 func c02ReadCheck(it corpusItem, input, frame []byte, p readPattern) *ev.Finding {
 	res := readBack(bytes.NewReader(frame), p, len(input)+1<<20)
+	if res.skipped {
+		return nil
+	}
 	k := c02Case{it, p}
 	path := "Read"
 	if p.WriteTo {
@@ -277,7 +280,7 @@ func c09ReusedWriter(c *ev.Ctx) {
 		}
 		seenIdx[gi] = true
 		o := grid[gi]
-		if !c.Mine(int64(n % 4)) && c.NShards > 1 {
+		if !c.Mine(int64(n%4)) && c.NShards > 1 {
 			// few shards take part: the point is the long history of one Writer
 			if c.Shard >= 4 {
 				return
